@@ -19,6 +19,12 @@ type CrashParams struct {
 	SuffixEvery int   // run the "fully operational" suffix on every n-th image (plus all none/all images)
 	MaxImages   int   // stop enumerating a history after this many images (0 = no cap); counted as capped
 	Seed        uint64
+	// RecrashEvery: on every n-th image that runs the suffix, the suffix is recorded and its own crash
+	// images are enumerated (a crash during the first transactions after a crash recovery); 0 = never
+	RecrashEvery int
+	// Base: durable content before the first logged op (second level enumeration)
+	Base []byte
+	level int
 }
 
 // CrashStats counts what the enumeration covered.
@@ -32,6 +38,8 @@ type CrashStats struct {
 	Positions   int
 	TornValid   int // torn headers that happened to be valid (skipped)
 	Capped      int // histories whose enumeration was cut at MaxImages
+	Recrashes   int // recovered images whose suffix was itself crash-enumerated
+	Images2     int // second level images (crash during the transactions that follow a recovery)
 }
 
 const hdrMagic = 0xBEA77AEB
@@ -78,6 +86,9 @@ func CheckCrashImages(r *Runner, cp CrashParams, st *CrashStats) (v *Violation) 
 	}
 
 	initial := crashState{txid: r.InitTxID, state: NewMState()}
+	if r.InitState != nil {
+		initial.state = r.InitState
+	}
 	rnd := NewRand(cp.Seed)
 	o := simdisk.EnumOpts{
 		PageSize:   ps,
@@ -85,6 +96,7 @@ func CheckCrashImages(r *Runner, cp CrashParams, st *CrashStats) (v *Violation) 
 		MaxFull:    cp.MaxFull,
 		Random:     cp.Random,
 		TornCuts:   cp.TornCuts,
+		Base:       cp.Base,
 	}
 
 	imgNo := 0
@@ -153,8 +165,8 @@ func CheckCrashImages(r *Runner, cp CrashParams, st *CrashStats) (v *Violation) 
 			st.Nontrivial++
 		}
 
-		runSuffix := spec.Family == "none" || spec.Family == "all" || (cp.SuffixEvery > 0 && imgNo%cp.SuffixEvery == 0)
-		got, vv := checkOneImage(r, img, allowed, spec, runSuffix, st)
+		runSuffix := cp.level == 0 && (spec.Family == "none" || spec.Family == "all" || (cp.SuffixEvery > 0 && imgNo%cp.SuffixEvery == 0))
+		got, vv := checkOneImage(r, img, allowed, spec, runSuffix, st, &cp)
 		if vv != nil {
 			v = vv
 			return
@@ -170,7 +182,7 @@ func CheckCrashImages(r *Runner, cp CrashParams, st *CrashStats) (v *Violation) 
 	return v
 }
 
-func checkOneImage(r *Runner, img []byte, allowed []crashState, spec simdisk.CrashSpec, suffix bool, st *CrashStats) (txid uint64, v *Violation) {
+func checkOneImage(r *Runner, img []byte, allowed []crashState, spec simdisk.CrashSpec, suffix bool, st *CrashStats, cp *CrashParams) (txid uint64, v *Violation) {
 	var f *txfile.File
 	defer func() {
 		if x := recover(); x != nil {
@@ -219,6 +231,22 @@ func checkOneImage(r *Runner, img []byte, allowed []crashState, spec simdisk.Cra
 		vv.Msg = fmt.Sprintf("crash image {%s}, recovered txid %d: %s", spec.String(), txid, vv.Msg)
 		return txid, vv
 	}
+	// second level: crash during the transactions that follow this recovery. Images with a torn
+	// header (the inactive slot holds garbage when the file is used again) are preferred.
+	if cp.level == 0 && cp.RecrashEvery > 0 {
+		n, every := st.Suffixes+1, cp.RecrashEvery
+		pick := suffix
+		if spec.TornAt >= 0 {
+			n, every, pick = st.Torn, (cp.RecrashEvery+2)/3, true
+		}
+		if pick && (n+int(cp.Seed%uint64(every)))%every == 0 {
+			if suffix {
+				st.Suffixes++
+			}
+			f.Close()
+			return txid, recrash(r, img, txid, m, spec, st, cp)
+		}
+	}
 	if suffix {
 		st.Suffixes++
 		if vv := runSuffixOn(r, d, f, m, spec); vv != nil {
@@ -248,6 +276,44 @@ func runSuffixOn(r *Runner, d *simdisk.Disk, f *txfile.File, m *MState, spec sim
 		return v
 	}
 	return nil
+}
+
+// recrash opens the recovered image once more on a recording disk, runs the
+// suffix transactions and enumerates the crash images of that run: a crash
+// during the first transactions after a crash recovery must again expose the
+// recovered state or the state of one of the suffix commits.
+func recrash(r *Runner, img []byte, txid uint64, m *MState, spec simdisk.CrashSpec, st *CrashStats, cp *CrashParams) *Violation {
+	d := simdisk.FromImage("recrash", img)
+	f, err := txfile.VerifOpen(d, txfile.Options{})
+	if err != nil {
+		return violationf("crash-open", spec.K, "crash image {%s}: second open of the same image failed: %v", spec.String(), err)
+	}
+	k := spec.K
+	suffix := &Program{Cfg: r.P.Cfg, Items: []Item{
+		{Tx: &Tx{Ops: []Op{{K: OpAlloc, A: 2}, {K: OpWrite, A: 1 << 20, B: 0, C: 990011}, {K: OpWriteMany, A: k, B: 2, C: 990012}, {K: OpFree, A: k + 1}}, End: EndCommit}},
+		{Tx: &Tx{WALLimit: uint(k % 3), Ops: []Op{{K: OpWriteMany, A: k + 2, B: 3, C: 990013}, {K: OpFlushTx}, {K: OpAlloc, A: 1}, {K: OpFree, A: k + 3}}, End: EndCommit}},
+		{Tx: &Tx{Ops: []Op{{K: OpAlloc, A: 1}, {K: OpWrite, A: 1 << 20, B: 0, C: 990014}}, End: EndRollback}},
+		{Tx: &Tx{Ops: []Op{{K: OpWriteMany, A: k + 5, B: 1, C: 990015}, {K: OpSetRoot, A: k}}, End: EndCommit}},
+	}}
+	sr := NewRunnerOn(suffix, RunOpts{CheckContent: true, Drain: true, TrackCommits: true}, d, f, m)
+	sr.InitTxID = txid
+	sr.InitState = m.Clone()
+	sr.CreatedIdx = 0
+	if v := sr.Run(); v != nil {
+		v.Clause = "crash-suffix-" + v.Clause
+		v.Msg = fmt.Sprintf("crash image {%s}: recovered file is not fully operational: %s", spec.String(), v.Msg)
+		return v
+	}
+	st.Recrashes++
+	var st2 CrashStats
+	cp2 := CrashParams{MaxFull: 4, Random: 2, TornCuts: []int{1, 40, 83}, SuffixEvery: 0, MaxImages: 600, Seed: cp.Seed + uint64(k), Base: img, level: 1}
+	v := CheckCrashImages(sr, cp2, &st2)
+	st.Images2 += st2.Images
+	if v != nil {
+		v.Clause = "recrash-" + v.Clause
+		v.Msg = fmt.Sprintf("after recovering crash image {%s} (txid %d) and running further transactions, second level %s", spec.String(), txid, v.Msg)
+	}
+	return v
 }
 
 // NewRunnerOn creates a Runner for an already opened file whose committed
